@@ -138,6 +138,19 @@ MaskSelect(A, M) ==
   LET keep == SelectSeq([k \in 1..Len(A.data) |-> k], LAMBDA k : M.data[k] # 0)
   IN Arr(<<Len(keep)>>, [j \in 1..Len(keep) |-> A.data[keep[j]]], A.kind)
 
+\* data-dependent selections (results have unknown chunk sizes in dask_array)
+TruePositions(A) == SelectSeq([k \in 1..Len(A.data) |-> k], LAMBDA k : VTruth(A.data[k], A.kind))
+FlatNonzero(A) == LET keep == TruePositions(A) IN Arr(<<Len(keep)>>, [j \in 1..Len(keep) |-> keep[j] - 1], "i")
+ArgWhere(A) ==
+  LET keep == TruePositions(A)
+      r == Len(A.shape)
+      st == StridesOf(A.shape)
+  IN Arr(<<Len(keep), r>>, [m \in 1..(Len(keep) * r) |-> UnravelS(keep[((m - 1) \div r) + 1] - 1, A.shape, st)[((m - 1) % r) + 1]], "i")
+UniqueSorted(A) ==      \* requires no NaN
+  LET vals == {A.data[k] : k \in 1..Len(A.data)}
+      srt == SetToSortSeq(vals, LAMBDA x, y : VLt(x, y, A.kind))
+  IN Arr(<<Len(srt)>>, srt, A.kind)
+
 \* 1-D boolean mask applied along one axis = take of the true positions
 MaskAxis(A, M, ax) ==
   Take(A, SelectSeq([k \in 1..Len(M.data) |-> k - 1], LAMBDA p : M.data[p + 1] # 0), ax)
